@@ -142,17 +142,17 @@ def _project(rnd, nr, ar, with_sub=True):
 
     def dt(v):
         v = float(v)
-        return dtok[0.0 if v == 0 else v]
+        return dtok.get(0.0 if v == 0 else v, 9999)
     s_all = sorted(set(sn.tolist()) | set(pn.tolist()))
     stok = {s: i for i, s in enumerate(s_all)}
 
     def got(s):
         sp = ExperimentSpace.from_screen(s)
         return {"ids": s.treatment_ids.astype(int).tolist(),
-                "mapping": [[ntok[str(a)], dt(b), int(c)] for a, b, c in zip(*s.treatment_mapping)],
+                "mapping": [[ntok.get(str(a), 9999), dt(b), int(c)] for a, b, c in zip(*s.treatment_mapping)],
                 "nut": int(sp.n_unique_treatments), "nus": int(sp.n_unique_samples),
-                "sids": [int(x) for x in s.sample_ids], "smap": [[stok[str(a)], int(b)] for a, b in zip(*s.sample_mapping)],
-                "pids": [int(x) for x in s.plate_ids], "pmap": [[stok[str(a)], int(b)] for a, b in zip(*s.plate_mapping)]}
+                "sids": [int(x) for x in s.sample_ids], "smap": [[stok.get(str(a), 9999), int(b)] for a, b in zip(*s.sample_mapping)],
+                "pids": [int(x) for x in s.plate_ids], "pmap": [[stok.get(str(a), 9999), int(b)] for a, b in zip(*s.plate_mapping)]}
     t = {"arity": ar, "ctl": ntok[ctl],
          "rows": [[[ntok[tn[r, a]], dt(td[r, a])] for a in range(ar)] for r in range(nr)],
          "samples": [stok[x] for x in sn], "plates": [stok[x] for x in pn], "got": got(scr),
